@@ -9,13 +9,13 @@ MC_ALL_DIRECT = ["P01_DeliveryNominal", "P16_Price", "P10_RoundTrip", "P10_Accep
                  "P08_OnlyUriAttr", "P08_WrongHash", "P09_Admissible", "P09_Rejected"]
 
 
-def mc_cfg(fns, msgs, supply, ctr, checked=None, bugs=(), hs=("u0a", "u0b", "u1a"), freeze=("u0a",), ptoks=("46",), pshards=(0,), gas=(1000,), rejected=False,
+def mc_cfg(fns, msgs, supply, ctr, checked=None, bugs=(), hs=("u0a", "u0b", "u1a"), freeze=("u0a",), ptoks=("46",), pshards=(0,), gas=(1000,), rejected=False, emit=False, rejsample=4,
            invs=("InvNoViol", "InvConservation", "InvNoNegative", "InvWellFormed", "InvSysClean", "InvNonces")):
     q = lambda l: "{" + ", ".join('"%s"' % x for x in l) + "}"
     pd = q(ptoks) + "\n  PauseShards = {" + ", ".join(str(x) for x in pshards) + "}"
     return ("SPECIFICATION Spec\nCONSTANTS\n  Fns = %s\n  MaxMsgs = %d\n  MaxSupply = %d\n  MaxCtr = %d\n  Hs = %s\n  FreezeAccts = %s\n  PauseToks = %s\n"
-            "  GasPoints = {%s}\n  ExploreRejected = %s\n  Bugs = %s\n  Checked = %s\nINVARIANTS %s\nVIEW View\nCHECK_DEADLOCK FALSE\n") % (
-        q(fns), msgs, supply, ctr, q(hs), q(freeze), pd, ", ".join(str(g) for g in gas), "TRUE" if rejected else "FALSE", q(bugs), q(checked or MC_ALL_DIRECT), " ".join(invs))
+            "  GasPoints = {%s}\n  ExploreRejected = %s\n  EmitTransitions = %s\n  RejSample = %d\n  Bugs = %s\n  Checked = %s\nINVARIANTS %s\nVIEW View\nCHECK_DEADLOCK FALSE\n") % (
+        q(fns), msgs, supply, ctr, q(hs), q(freeze), pd, ", ".join(str(g) for g in gas), "TRUE" if rejected else "FALSE", "TRUE" if emit else "FALSE", rejsample, q(bugs), q(checked or MC_ALL_DIRECT), " ".join(invs))
 
 
 # per property: driver profile and flags, predicates checked on recorded behaviour, model configurations (quick, thorough), vacuity guards
@@ -125,6 +125,64 @@ def replay_walks(run, mc, n, depth, preds, label, rejected=False):
     return done
 
 
+def fix_tlc_world(w):
+    """TLC's ToJson prints an empty function as []: restore the objects the harness expects."""
+    for a in w["acct"].values():
+        for f in ("esdt", "roles", "ctr", "kv", "bad"):
+            if a[f] == []:
+                a[f] = {}
+    for f in ("paused", "sysx"):
+        if w[f] == []:
+            w[f] = {}
+        for s in w[f]:
+            if w[f][s] == []:
+                w[f][s] = {}
+    for f in ("oracle", "sched"):
+        if w[f] == []:
+            w[f] = {}
+    return w
+
+
+def inject_replay(run, mc, preds, label, target):
+    """One implementation test per transition of the bounded model's state graph: TLC prints every explored transition (pre-state,
+    call, verdict); the harness injects the pre-state into a real world (checking Project(Inject(s)) = s), runs the call and compares
+    the verdict; a sample of `target` transitions plus every disagreement is validated by TLC in full."""
+    d = run.spec_dir("emit-" + label)
+    kw = dict(mc["kw"])
+    kw.update(rejected=True, emit=True)
+    if run.tier == "quick":
+        # the quick tier injects the state graph of a two-holder version of the configuration
+        kw.update(rejsample=12)
+        if "hs" not in kw:
+            kw["hs"] = ("u0a", "u1a")
+    rc, o = run.tlc(d, "EsdtMC", mc_cfg(mc["fns"], mc["msgs"], mc["supply"], mc["ctr"], checked=["P01_FailKeeps"], **kw), workers=1, timeout=3000)
+    if "Model checking completed. No error has been found." not in o:
+        raise Infra("transition emission run failed:\n" + tail_errors(o))
+    tf = os.path.join(run.dir, "trans-%s.ndjson" % label)
+    n = 0
+    with open(tf, "w") as out:
+        for m in re.finditer(r'<<\s*"TRANS",\s*"(.*?)"\s*>>', o, re.S):
+            t = json.loads(m.group(1).replace('\\"', '"').replace("\\\\", "\\").replace("\n", ""))
+            t["w"] = fix_tlc_world(t["w"])
+            out.write(json.dumps(t) + "\n")
+            n += 1
+    del o
+    if n == 0:
+        raise Infra("no transition emitted")
+    trace = os.path.join(run.dir, "inject-%s.ndjson" % label)
+    st = run.harness(["inject", "-in", tf, "-out", trace, "-every", str(max(1, n // target))])
+    if st["badinject"]:
+        raise Infra("Project(Inject(s)) != s on %d injected states (harness error)" % st["badinject"])
+    viols, done = run.validate(trace, preds + ["P00_ReplayAgrees"], label="tv-inj-" + label)
+    record_ledger_violations(run, trace, viols, family="inject", walks=tf)
+    run.cov["traces_validated_against_impl"] += done["counters"].get("replayed", 0)
+    run.cov["model_transitions_executed_on_impl"] = run.cov.get("model_transitions_executed_on_impl", 0) + st["traces"]
+    run.cov["model_transitions_validated_by_tlc"] = run.cov.get("model_transitions_validated_by_tlc", 0) + done["counters"].get("replayed", 0)
+    run.cov["model_transition_verdict_disagreements"] = run.cov.get("model_transition_verdict_disagreements", 0) + st["disagree"]
+    os.remove(tf)
+    return st
+
+
 SIZES = {"quick": dict(traces=16, steps=140), "thorough": dict(traces=240, steps=300)}
 
 
@@ -145,10 +203,9 @@ def run_ledger(run):
         nw = 30 if run.tier == "quick" else 400
         done = replay_walks(run, mc, nw, 12 if run.tier == "quick" else 16, spec["preds"], "%d" % n)
         total_replay += done["counters"].get("replayed", 0)
-        if n == 0:
-            done = replay_walks(run, mc, nw // 2, 10, spec["preds"], "%dr" % n, rejected=True)
-            total_replay += done["counters"].get("replayed", 0)
     run.require(total_replay >= 80, "replayed model steps=%d < 80" % total_replay)
+    inj = spec["mc"][0 if run.tier == "quick" else 1][spec.get("inject", 0)]
+    inject_replay(run, inj, spec["preds"], "0", 1200 if run.tier == "quick" else 12000)
     # (T) recorded behaviours of the real code
     sz = SIZES[run.tier]
     scale = spec.get("scale", 1.0)
@@ -199,9 +256,9 @@ def record_ledger_violations(run, trace, viols, family="ledger", walks=None):
         ev = lines[l]["ev"]
         desc = {"fn": ev["fn"], "a": ev["a"], "res": ev["res"], "caller": ev["caller"], "rcpt": ev["rcpt"], "line": l, "nargs": len(ev["args"])}
         obj = {"family": family, "steps": trace_prefix(trace + ".replay", l), "event": ev, "checked": [pred]}
-        if family == "mcreplay":
-            # the walk (model behaviour) that contains the failing step
-            tno = obj["steps"][0].get("trace", 0) if obj["steps"] else 0
+        if family in ("mcreplay", "inject"):
+            # the walk (model behaviour) / transition that contains the failing step
+            tno = (obj["steps"][0].get("trace", obj["steps"][0].get("trans", 0))) if obj["steps"] else 0
             with open(walks) as f:
                 for i, wl in enumerate(f):
                     if i == tno:
@@ -216,7 +273,7 @@ def replay(path):
     run.dir = os.path.join(WORK, "replay")
     os.makedirs(run.dir, exist_ok=True)
     try:
-        if obj.get("family") in ("ledger", "mcreplay"):
+        if obj.get("family") in ("ledger", "mcreplay", "inject"):
             run.build_harness()
             trace = os.path.join(run.dir, "replay.ndjson")
             if obj["family"] == "ledger":
@@ -226,7 +283,7 @@ def replay(path):
             else:
                 wf = os.path.join(run.dir, "walk.ndjson")
                 open(wf, "w").write(json.dumps(obj["walk"]) + "\n")
-                run.harness(["mcreplay", "-in", wf, "-out", trace])
+                run.harness([obj["family"], "-in", wf, "-out", trace])
             viols, done = run.validate(trace, obj["checked"], label="tv-replay")
             hit = [v for v in viols if v[1] == obj["predicate"]]
             if hit:
